@@ -317,6 +317,26 @@ theorem raceFree_add_readers {t rs : List Access} (h : raceFree t)
     · rw [hak] at hk; cases hk
     · rw [hbk] at hk; cases hk
 
+theorem bareReaderB_iff (r : Access) : bareReaderB r = true ↔ bareReader r := by
+  simp [bareReaderB, bareReader, and_assoc]
+
+/-- A race-free table that contains a bare reader of a location contains no live write of it: the
+location is frozen (for the `published:` locations: C07 as the extractor sees the library). -/
+theorem frozen_of_bareReader {t : List Access} {r : Access} (h : raceFree t) (hr : r ∈ t)
+    (hb : bareReader r) : frozenIn t r.field := by
+  obtain ⟨_, hp, hro, hh, hrel, hacq⟩ := hb
+  intro a ha hf hk
+  rcases h a ha r hr ⟨hf, Or.inl hk⟩ with h' | h' | h' | h' | h' | h'
+  · exact h'
+  · rw [hp] at h'; cases h'
+  · exact absurd (h'.2 ▸ hro) h'.1
+  · obtain ⟨l, m₁, m₂, _, h₂, _⟩ := h'
+    rw [hh] at h₂; cases h₂
+  · obtain ⟨c, _, h₂⟩ := h'
+    rw [hacq] at h₂; cases h₂
+  · obtain ⟨c, h₁, _⟩ := h'
+    rw [hrel] at h₁; cases h₁
+
 /-- A live write that holds no lock, has no role and no close edge is unordered with every live access
 that is not ordered with it by construction: one such write to a location somebody else reads refutes
 the discipline. -/
